@@ -570,7 +570,7 @@ def run_sym(h, case_d, timeout_ms=20000, max_paths=None):
     canary_refuted = False
     # wall-clock budget of one harness case (the slowest case of the pinned tree takes about a minute; quick: 4 minutes, thorough: 16): a run past it is
     # undecided -- changed code may send the interpreter into a very long loop or an explosion of paths
-    budget_s = float(os.environ.get("PYVC_CASE_BUDGET_S", "0") or 0) or max(240.0, timeout_ms / 1000.0 * 8)
+    budget_s = float(os.environ.get("PYVC_CASE_BUDGET_S", "0") or 0) or (240.0 if timeout_ms <= 150000 else 960.0)
     CTX.deadline = t0 + budget_s
     CTX.ticks = 0
     while work:
